@@ -15,6 +15,7 @@ import (
 	"verifharness/cryptob"
 
 	"verifharness/geometry"
+	"verifharness/gexpire"
 	"verifharness/httpb"
 	"verifharness/internal/isolate"
 	"verifharness/live"
@@ -33,6 +34,7 @@ var bindings = map[string]func(in []byte) any{
 	"piecestore": piecestore.Replay,
 	"webseed":    webseedb.Handle,
 	"http":       httpb.Handle,
+	"gexpire":    gexpire.Handle,
 	"privacy":    privacyb.Handle,
 	"crypto":     cryptob.Handle,
 	"live":       live.Handle,
